@@ -1,6 +1,7 @@
 package hx
 
 import (
+	"sync/atomic"
 	"bytes"
 	"context"
 	"encoding/json"
@@ -97,7 +98,17 @@ func genJSONValue(r *rand.Rand, depth int) interface{} {
 	return nil
 }
 
-var httpQueries = []string{`{ me { firstName } }`, `{ me { firstName lastName } }`, `{ nope }`, `{ me { `, ``, `query A { me { firstName } } query B { allUsers { lastName } }`, `mutation { bump(id: "u1") { firstName } }`}
+var httpQueries = []string{`{ me { firstName } }`, `{ me { firstName lastName } }`, `{ nope }`, `{ me { `, ``, `query A { me { firstName } } query B { allUsers { lastName } }`, `mutation { bump(id: "u1") { firstName } }`,
+	// operations with variables, also on the gateway's own fields; the variables object may give all, some or none
+	// of them, or values of another kind
+	`query V($n: String!) { __type(name: $n) { name kind } }`, `query V($id: ID!) { node(id: $id) { id } }`,
+	`query V($id: ID!, $s: Boolean!) { user(id: $id) { firstName lastName @include(if: $s) } }`,
+	`query V($s: Boolean = true, $n: String) { __schema { queryType { name } } __type(name: $n) { name } me { firstName lastName @skip(if: $s) } }`,
+	`{ __type(name: "User") { name fields { name } } __schema { types { name } } }`}
+
+var httpVariables = []interface{}{map[string]interface{}{"n": "User"}, map[string]interface{}{"n": nil}, map[string]interface{}{"id": "u1", "s": true},
+	map[string]interface{}{"id": 5}, map[string]interface{}{"s": "x", "n": 7}, map[string]interface{}{"id": "u2"}, map[string]interface{}{}, nil,
+	map[string]interface{}{"id": []interface{}{"u1"}, "s": nil, "n": map[string]interface{}{"a": 1}}}
 
 func genOperation(r *rand.Rand) interface{} {
 	switch r.Intn(12) {
@@ -122,6 +133,9 @@ func genOperation(r *rand.Rand) interface{} {
 	if r.Intn(3) == 0 {
 		op[key("variables")] = map[string]interface{}{"f": nil, "fs": []interface{}{nil, nil}, "o": map[string]interface{}{"f": nil}, "s": "x"}
 	}
+	if r.Intn(4) == 0 {
+		op[key("variables")] = httpVariables[r.Intn(len(httpVariables))]
+	}
 	if r.Intn(12) == 0 {
 		op[key("variables")] = genJSONValue(r, 2)
 	}
@@ -145,7 +159,7 @@ func genHTTPCase(r *rand.Rand) HTTPCase {
 			v.Set("query", httpQueries[r.Intn(len(httpQueries))])
 		}
 		if r.Intn(2) == 0 {
-			v.Set("variables", []string{`{"a":1}`, `[1]`, `null`, `{`, `"x"`, `true`, `{}`}[r.Intn(7)])
+			v.Set("variables", []string{`{"a":1}`, `[1]`, `null`, `{`, `"x"`, `true`, `{}`, `{"n":"User"}`, `{"id":"u1","s":false}`, `{"id":5,"n":null}`}[r.Intn(10)])
 		}
 		if r.Intn(4) == 0 {
 			v.Set("operationName", []string{"A", "B", "Zzz", ""}[r.Intn(4)])
@@ -329,7 +343,8 @@ func (c15) Run(c *Ctx, i int) CaseResult {
 	b, _ := json.Marshal(hc)
 	res := CaseResult{ID: id, Key: string(b)}
 	store := GenStore(rand.New(rand.NewSource(5)), false)
-	f, err := NewFed(FixedFed(), store)
+	cx := &countExec{Inner: &gateway.ParallelExecutor{}}
+	f, err := NewFed(FixedFed(), store, gateway.WithExecutor(cx))
 	if err != nil {
 		res.Fails = append(res.Fails, Failure{Channel: "harness", Classifier: "harness-error", What: err.Error()})
 		return res
@@ -387,9 +402,11 @@ func (c15) Run(c *Ctx, i int) CaseResult {
 	if served == 0 && len(entries) > 0 {
 		// nothing was served: a malformed or unplannable request gets 4xx, errors, and no service is contacted.
 		// Two kinds of unserved requests legitimately keep status 200: operations that were planned and failed
-		// while executing (services were contacted), and a wrong/missing operationName, which the gateway
+		// while executing (services were contacted, or the executor was run: the gateway's own fields fail without
+		// contacting anybody), and a wrong/missing operationName, which the gateway
 		// reports as a GraphQL error entry (no service may be contacted for it, checked below).
-		if (rec.Code < 400 || rec.Code > 499) && !(calls > 0 && rec.Code == 200) && !(opNameOnly && rec.Code == 200) {
+		executed := atomic.LoadInt64(&cx.N)
+		if (rec.Code < 400 || rec.Code > 499) && !((calls > 0 || executed > 0) && rec.Code == 200) && !(opNameOnly && rec.Code == 200) {
 			bad("L0.http-status", fmt.Sprintf("no operation was served but the status is %d", rec.Code))
 		}
 		if opNameOnly && calls != 0 {
@@ -461,7 +478,7 @@ func httpModelDiff(c *Ctx, f *Fed, hc HTTPCase, status int, shape string, entrie
 		}
 		return ""
 	}
-	return httpRespondDiff(c, f, ans, status, shape, entries)
+	return httpRespondDiff(c, f, ans, bodyVariables(hc.Body), status, shape, entries)
 }
 
 // httpFrontDiff: the front of the handler (method, content type, GET parameters) against Http.parseReq, then the
@@ -513,14 +530,30 @@ func httpFrontDiff(c *Ctx, f *Fed, hc HTTPCase, status int, shape string, entrie
 		}
 		return ""
 	}
-	return httpRespondDiff(c, f, ans, status, shape, entries)
+	vars := bodyVariables(hc.Body)
+	if hc.Method == "GET" {
+		vars = nil
+		if u, err := url.Parse(hc.Target); err == nil {
+			if vs, ok := u.Query()["variables"]; ok {
+				var m map[string]interface{}
+				if json.Unmarshal([]byte(vs[0]), &m) == nil {
+					vars = []map[string]interface{}{m}
+				}
+			}
+		}
+	}
+	return httpRespondDiff(c, f, ans, vars, status, shape, entries)
 }
 
-func httpRespondDiff(c *Ctx, f *Fed, ans map[string]interface{}, status int, shape string, entries []map[string]interface{}) string {
+func httpRespondDiff(c *Ctx, f *Fed, ans map[string]interface{}, vars []map[string]interface{}, status int, shape string, entries []map[string]interface{}) string {
 	ops := ans["ops"].([]interface{})
 	var items []interface{}
-	for _, o := range ops {
+	for k, o := range ops {
 		om := o.(map[string]interface{})
+		var opVars map[string]interface{}
+		if k < len(vars) {
+			opVars = vars[k]
+		}
 		q, _ := om["query"].(string)
 		name, _ := om["operationName"].(string)
 		hash, _ := om["hash"].(string)
@@ -530,7 +563,7 @@ func httpRespondDiff(c *Ctx, f *Fed, ans map[string]interface{}, status int, sha
 			if err != nil {
 				return "harness: " + err.Error()
 			}
-			rc := &gateway.RequestContext{Context: context.Background(), Query: q, OperationName: name, CacheKey: hash}
+			rc := &gateway.RequestContext{Context: context.Background(), Query: q, OperationName: name, CacheKey: hash, Variables: opVars}
 			plans, perr := f2.GW.GetPlans(rc)
 			if perr == nil {
 				item["plannable"] = true
@@ -565,6 +598,40 @@ func httpRespondDiff(c *Ctx, f *Fed, ans map[string]interface{}, status int, sha
 		}
 	}
 	return ""
+}
+
+// countExec counts the executions handed to the executor (an operation that got that far was planned)
+type countExec struct {
+	Inner gateway.Executor
+	N     int64
+}
+
+func (c *countExec) Execute(ctx *gateway.ExecutionContext) (map[string]interface{}, error) {
+	atomic.AddInt64(&c.N, 1)
+	return c.Inner.Execute(ctx)
+}
+
+// bodyVariables: the variables of each operation of a JSON body, decoded the way the handler decodes them
+func bodyVariables(body string) []map[string]interface{} {
+	type op struct {
+		Variables map[string]interface{} `json:"variables"`
+	}
+	var one op
+	if json.Unmarshal([]byte(body), &one) == nil {
+		return []map[string]interface{}{one.Variables}
+	}
+	var many []*op
+	var out []map[string]interface{}
+	if json.Unmarshal([]byte(body), &many) == nil {
+		for _, o := range many {
+			if o == nil {
+				out = append(out, nil)
+			} else {
+				out = append(out, o.Variables)
+			}
+		}
+	}
+	return out
 }
 
 func truncate(s string, n int) string {
